@@ -710,7 +710,8 @@ def main():
         progs = [dict(name="replay", lines=["design replay"] + rp["program"][1:], crossings=1, flavor="replay")]
     else:
         count = 400 if tier == "quick" else 2400
-        progs = corpus_programs() + gen_batch(seed, count, tier)
+        # C12_NO_CORPUS=1 is a test knob (used to confirm that the generated designs alone catch a mutation)
+        progs = ([] if os.environ.get("C12_NO_CORPUS") else corpus_programs()) + gen_batch(seed, count, tier)
 
     broken = []
     if not res["ok"]:
